@@ -135,6 +135,19 @@ PROPS = {
         runs=MPMC_RUNS + ONESHOT_RUNS, keys=["r", "w", "p", "v"], assumptions=[SCHED_NOTE],
         level_text="(in progress)", level_note="(in progress)",
     ),
+    "C16": dict(
+        level="proof", coq_files=["Properties/C16.v"],
+        pre_coq="python3 tools/rs2coq_types.py /repo/src coq/Gen/TypesGen.v && make -C coq Gen/TypesGen.vo >/dev/null 2>&1; true",
+        theorems={"Properties/C16.v": ["C16_futures_not_unpin", "C16_sound", "C16_table_covers_impls", "C16_complete"]},
+        runs=[], keys=[], extra=["c16"],
+        trusted_extra=["tools/rs2coq_types.py (translator: struct/enum fields, unsafe impl bounds -> coq/Gen/TypesGen.v, regenerated on every run)",
+                       "coq/Model/AutoTraits.v leaf rules for core/alloc/lock_api types, validated on every run against rustc on ~1500 instantiations with witness types (tools/c16.py probe crate)",
+                       "coq/Model/AutoTraitsSpec.v `required` / `promised` tables: they ARE the definition of 'sound' and 'promised'"],
+        level_text="Translator route: the struct / unsafe-impl facts are regenerated from /repo/src on every run; theorems (complete case analysis over all Send/Sync/Unpin bit assignments of the type parameters, closed by vm_compute): every future/stream is !Unpin for every instantiation; whenever a public type is Send/Sync the bounds required by the hand-written soundness table hold; every explicit unsafe impl is covered by the table; promised instances hold. The auto-trait rules + translator are validated against rustc itself (probe crate, autoref specialisation) on every run; a falsifying assignment is instantiated with witness types and confirmed with rustc as the failing input.",
+        level_note="The auto-trait model is a simplification of rustc's solver (no lifetimes, no coinduction); soundness is relative to the requirement table.",
+        assumptions=["Pin guarantees that a !Unpin future is not moved after its first poll (language guarantee)"],
+        technique="translator (Rust source -> Coq data) + Coq proof by exhaustive case analysis + rustc probe validation",
+    ),
     "C14": dict(
         level="proof",
         coq_files=["Properties/C14.v"],
